@@ -7,6 +7,7 @@
 // Column_settings / Field_operators / entry pool - shows as a sanitizer report or as a wrong matrix in the copy
 // once the source was mutated, reassigned or destroyed.
 #include "pm_model.hpp"
+#include <map>
 
 using namespace vf;
 using CT = Column_types;
@@ -66,6 +67,18 @@ struct LcmModel {
   void use_moved_from(int k, const char* what, F f) {
     if (!obj[k]->moved_from) return;
     obj[k]->moved_from = false;
+    // forking a sanitized process is slow: the outcome of each kind of use is established once per configuration
+    // (and process); afterwards a kind of use found fatal is noted and repaired without a new experiment, a kind of use
+    // found harmless is executed directly (if it then crashes after all, that is an ordinary crash record)
+    static std::map<std::string, bool> fatal;
+    auto known = fatal.find(what);
+    if (known != fatal.end()) {
+      if (!known->second) return;
+      note_unusable(what);
+      PM fresh;
+      obj[k]->m = std::move(fresh.m);
+      return;
+    }
     std::fflush(nullptr);
     pid_t pid = fork();
     if (pid == 0) {
@@ -78,14 +91,18 @@ struct LcmModel {
     }
     int status = 0;
     waitpid(pid, &status, 0);
-    if (WIFEXITED(status) && WEXITSTATUS(status) == 0) return;   // usable: the parent goes on with the real object
+    fatal[what] = !(WIFEXITED(status) && WEXITSTATUS(status) == 0);
+    if (!fatal[what]) return;   // usable: the parent goes on with the real object
+    note_unusable(what);
+    PM fresh;
+    obj[k]->m = std::move(fresh.m);
+  }
+  static void note_unusable(const char* what) {
     if (crash_ctx().out) {
       std::fprintf(crash_ctx().out, "{\"kind\":\"note\",\"tag\":\"moved_from_unusable\",\"cfg\":%s,\"use\":\"%s\"}\n",
                    bj::serialize(bj::value(std::string(name()))).c_str(), what);
       std::fflush(crash_ctx().out);
     }
-    PM fresh;
-    obj[k]->m = std::move(fresh.m);
   }
 
   bj::object apply(const bj::object& act) {
